@@ -1,6 +1,6 @@
 (* C10 — output is a function of the call's inputs.  Theorems only. *)
 From Coq Require Import Sorting.Permutation.
-From V Require Import Base.Bytes Model.MapOrder Proofs.MapOrderP Gen.Sites_C10.
+From V Require Import Base.Bytes Base.Val Model.Stack Model.MapOrder Proofs.MapOrderP Proofs.MapLoopP Gen.Sites_C10.
 
 (* 1. a loop that merges the entries of a Go map (distinct keys) into an accumulator gives the same
       accumulator, key by key, for every iteration order the runtime may choose *)
@@ -60,3 +60,16 @@ Example C10_pool_reachable :
   let s := fold_left (pstep nat) [PPush nat; PSet nat [x61] 1; PPop nat] {| pstack := [([], KRoot)]; ppool := []; pout := [] |} in
   ppool nat s = [[]] /\ pool_clean nat s.
 Proof. cbn. split; [reflexivity|repeat constructor]. Qed.
+
+(* the one place where a map's iteration order could reach the output in order - v-for over a map
+   (stack.go:ForEach) - sorts the keys by their printed form first: whichever order the runtime lists the
+   entries in, the items come out the same, in the same order (used by C04 for the instances) *)
+Theorem C10_map_loop_order_free : forall v v' m m',
+  map_items v = Some m -> map_items v' = Some m' -> Permutation m m' -> NoDup (map fst m) ->
+  for_each_val v = for_each_val v'.
+Proof. exact for_each_val_order_free. Qed.
+Print Assumptions C10_map_loop_order_free.
+Theorem C10_sorted_listing_order_free : forall (A : Type) (m m' : list (bytes * A)),
+  Permutation m m' -> NoDup (map fst m) -> sort_kv m = sort_kv m'.
+Proof. exact (@sort_kv_order_free). Qed.
+Print Assumptions C10_sorted_listing_order_free.
